@@ -120,6 +120,20 @@ class Sub(EventListener):
         self.table = {id(getattr(StatEvents, k)): (k, g) for k, g in table.items()}
         self.bad = []
         self.count = 0
+        self.last = {}
+
+    def settle(self):
+        """After the registering call returned: what was published for it must
+        describe the state that includes the observation."""
+        for k, (c, g) in self.last.items():
+            now = getattr(self.stat, g[0])(*g[1:])
+            same = c == now or (isinstance(c, float) and isinstance(now, float)
+                                and math.isnan(c) and math.isnan(now))
+            if not same:
+                self.bad.append("the last %s published is %r but %s() returns %r once the "
+                                "observation is registered" % (k, c, gname(g), now))
+                break
+        self.last = {}
 
     def notify(self, event):
         self.count += 1
@@ -129,6 +143,7 @@ class Sub(EventListener):
         k, g = ent
         now = getattr(self.stat, g[0])(*g[1:])
         c = event.content
+        self.last[k] = (c, g)
         same = c == now or (isinstance(c, float) and isinstance(now, float)
                             and math.isnan(c) and math.isnan(now))
         if not same:
@@ -206,6 +221,8 @@ def run_tally(case):
                                                type(e).__name__, e)), info
             xs.append(op[1])
             info["accepted"] += 1
+            if sub is not None:
+                sub.settle()
         elif op[0] == "bad":
             before = snapshot_text(read(st, GETTERS))
             try:
@@ -256,6 +273,8 @@ def run_counter(case):
             total += op[1]
             n += 1
             info["accepted"] += 1
+            if sub is not None:
+                sub.settle()
         elif op[0] == "bad":
             try:
                 st.register(BAD[op[1]])
